@@ -21,11 +21,24 @@ static const char *cur_api = "";
 static const char *fault_api;     /* API call during which the injected fault first fired */
 static char        first_fail_api[40];
 
+/* The calls of a workload up to and including its first Hclose / SDend are a workload of their own (the writing
+   session): when they all succeed although a fault has fired, the file must be what the fault-free run has at that point -
+   whatever a later session of the same workload reports. */
+static int      phase_done, phase_fail;
+static long     phase_fired;
+static uint64_t phase_hash;
+
 static void
 api(const char *name)
 {
     if (vfs_fault.fired && !fault_api)
         fault_api = cur_api; /* fired during the previous call */
+    if (!phase_done && (!strcmp(cur_api, "Hclose") || !strcmp(cur_api, "SDend"))) {
+        phase_done  = 1;
+        phase_fail  = any_fail;
+        phase_fired = vfs_fault.fired;
+        phase_hash  = vfs_hash_all();
+    }
     cur_api = name;
 }
 #define CK(name, failcond)                                                                                                           \
@@ -1013,6 +1026,9 @@ run_workload(int w)
     any_fail = 0;
     outdig   = MC_H0;
     cur_api  = "";
+    phase_done = phase_fail = 0;
+    phase_fired = 0;
+    phase_hash  = 0;
     fault_api = NULL;
     first_fail_api[0] = 0;
     vfs_remove_file(F1);
@@ -1045,7 +1061,8 @@ static plan_t *plans;
 static long    nplans;
 static struct {
     long     ncalls;
-    uint64_t outdig, filehash;
+    uint64_t outdig, filehash, phasehash;
+    int      phase_done;
 } ref[64];
 static long pair_last_k2[64]; /* largest second index enumerated per workload */
 #define PAIR_SLACK 12
@@ -1092,6 +1109,13 @@ run_plan(long idx, void *ctx)
         return;
     }
     uint64_t fh = vfs_hash_all();
+    if (phase_done && ref[p->w].phase_done && phase_fired > 0 && !phase_fail && phase_hash != ref[p->w].phasehash) {
+        snprintf(sig, sizeof sig, "silent-until-first-close:%s:%s@%s", fault_api ? fault_api : "?", vfs_kind_name[p->kind], WL[p->w].name);
+        mc_violation(sig, "every API call up to and including the first close of the file reported success although the injected failure had fired (during %s), "
+                          "and the file then differs from the fault-free run at the same point",
+                     fault_api ? fault_api : "?");
+        return;
+    }
     if (any_fail) {
         mc_count("runs_failure_reported", 1);
         mc_outcome(mc_hash(mc_hash_i(MC_H0, p->w), first_fail_api, strlen(first_fail_api)));
@@ -1129,8 +1153,10 @@ C16_main(const char *tier, const char *replay)
             return 2;
         /* reference first, in a child-less way: run it, record, then the faulted run */
         run_workload(cfg[0]);
-        ref[cfg[0]].outdig   = outdig;
-        ref[cfg[0]].filehash = vfs_hash_all();
+        ref[cfg[0]].outdig     = outdig;
+        ref[cfg[0]].filehash   = vfs_hash_all();
+        ref[cfg[0]].phasehash  = phase_hash;
+        ref[cfg[0]].phase_done = phase_done;
         printf("replay C16: workload %s, call #%d, variant %d, sticky %d (fault-free run: any_fail=%d)\n", WL[cfg[0]].name, cfg[1], cfg[2], cfg[3], any_fail);
         static plan_t one;
         one    = (plan_t){cfg[0], cfg[1], cfg[2], cfg[3], 0, ncfg >= 5 ? cfg[4] : -1};
@@ -1151,9 +1177,11 @@ C16_main(const char *tier, const char *replay)
             mc_harness_error("workload %s fails without any fault (first failing call %s)", WL[w].name, first_fail_api);
             return 0;
         }
-        ref[w].ncalls   = vfs_ncalls;
-        ref[w].outdig   = outdig;
-        ref[w].filehash = vfs_hash_all();
+        ref[w].ncalls     = vfs_ncalls;
+        ref[w].outdig     = outdig;
+        ref[w].filehash   = vfs_hash_all();
+        ref[w].phasehash  = phase_hash;
+        ref[w].phase_done = phase_done;
         /* determinism: the same workload again must give the same digests */
         run_workload(w);
         if (outdig != ref[w].outdig || vfs_hash_all() != ref[w].filehash) {
